@@ -400,6 +400,25 @@ pub fn run_raw(exe: &Path, args: &[OsString], env: &[(String, String)], stdin: &
             }
         }
     }
+    // One run in twelve (hash-chosen) is confined to a single CPU, as under `taskset`, a one-CPU container or VM:
+    // no property lets an outcome depend on how many processors the process may use.
+    if std::env::var_os("HDV_NO_AMBIENT").is_none() && (hk / 13) % 12 == 5 {
+        use std::os::unix::process::CommandExt;
+        unsafe {
+            cmd.pre_exec(|| {
+                let mut set: libc::cpu_set_t = std::mem::zeroed();
+                if libc::sched_getaffinity(0, std::mem::size_of::<libc::cpu_set_t>(), &mut set) == 0 {
+                    if let Some(first) = (0..libc::CPU_SETSIZE as usize).find(|i| libc::CPU_ISSET(*i, &set)) {
+                        let mut one: libc::cpu_set_t = std::mem::zeroed();
+                        libc::CPU_SET(first, &mut one);
+                        libc::sched_setaffinity(0, std::mem::size_of::<libc::cpu_set_t>(), &one);
+                    }
+                }
+                Ok(())
+            });
+        }
+        ambient.push(("cpu-affinity".into(), "the process may run on one CPU only".into()));
+    }
     // One run in five (hash-chosen) has such a directory as working directory and HOME (cases pass absolute paths).
     if std::env::var_os("HDV_NO_AMBIENT").is_none() && (hk / 100) % 5 == 0 && !env.iter().any(|(k, _)| k == "HOME" || k == "XDG_CONFIG_HOME") {
         let d = decoy_dir();
